@@ -150,6 +150,28 @@ CHECKS = {
             'deterministic simulation: crash-point (connection cut) and '
             'schedule search, quiescence-based hang detection, callback '
             'grammar oracle', 'DESIGN.md 4 C09'),
+    'C10': ('c10_hostile_input',
+            'asyncssh in either role faces a byte-level hostile peer '
+            '(garbage, NULs, few/many/over-long banner and version lines, '
+            'cleartext packets with arbitrary length/padding fields, early '
+            'close) or RefPeer holding the keys, before or after '
+            'authentication, sending messages of any type built from per-type '
+            'templates with numeric fields set to 0/1/2^31/2^32-1, string '
+            'lengths overrunning the packet, truncation/extension, unknown '
+            'channels, and channel open / confirmation with extreme window '
+            'and maximum packet size followed by application writes. Oracle: '
+            'deterministic spin detection (packets emitted by one callback '
+            'bounded by what the application asked to send), output bytes '
+            'bounded linearly, quiescence within the step cap, no exception '
+            'reaching the loop handler, owner notified at most once and with '
+            'an exception, connect()/open never hang.',
+            COMMON_NOTE + ' Work is measured in packets, bytes and loop '
+            'steps, not CPU time or memory. The offline parsers of the '
+            'statement (private key import, DER, sshsig) have no peer, '
+            'schedule or fault and are not decided by this technique.',
+            'deterministic simulation: hostile-peer input fault injection '
+            '(byte level and keyed), deterministic work budget',
+            'DESIGN.md 4 C10'),
     'C11': ('c11_rekey',
             'Seeded exploration of busy multi-channel sessions with rekey by '
             'byte threshold (from one packet up) and by virtual-clock time '
